@@ -67,3 +67,28 @@ package table
 //@ func Reader.Get
 //@   modifies nothing
 //@ end
+
+//@ # ---- merged iteration (C15 "merged iteration yields keys in ascending order", C03: the compaction merges its inputs through
+//@ # this iterator; a key that comes out of order is rejected by the output builder and its metric disappears) ------------
+//@ # the inputs are ordered by their current key, compared as the unsigned 32-bit numbers the keys are
+//@ func priorityQueue.Less
+//@   prop C03 C15
+//@   requires i >= 0 && i < len(pq) && j >= 0 && j < len(pq) && pq[i] != nil && pq[j] != nil
+//@   modifies nothing
+//@   ensures[inputs_are_ordered_by_their_unsigned_key] result == (pq[i].key < pq[j].key)
+//@ end
+//@ # an input that is put back with its next key is moved to its heap position before the iterator is used again (Push only
+//@ # appends; without the fix-up the next Pop does not return the smallest key). Thin contract: the heap algorithm itself
+//@ # (container/heap) is not under contract, only this protocol step is claimed
+//@ ghost field mergedIterator.requeued bool
+//@ # (no code writes a ghost field: it keeps its value across calls; only the ghost assignments below change it)
+//@ stable mergedIterator.requeued
+//@ func mergedIterator.HasNext
+//@   prop C03 C15
+//@   focus a_re_queued_input_is_put_in_heap_position_before_the_iterator_is_used_again
+//@   ghost_entry m.requeued = false
+//@   ghost_after priorityQueue.Push m.requeued = true
+//@   ghost_after priorityQueue.update m.requeued = false
+//@   modifies *
+//@   ensures[a_re_queued_input_is_put_in_heap_position_before_the_iterator_is_used_again] !m.requeued
+//@ end
